@@ -615,6 +615,8 @@ def bounded(rep, tier):
 
 
 def check(rep, tier):
+    from vlib import statecensus
+    statecensus.obligations(rep, 'C18', 'all')
     rep.dropped = 'method bodies read with ast.parse; decorators/docstrings dropped'
     rep.assume('copy.deepcopy without hooks = structure-equal fresh graph (CPython)', 'to_tree()/str() deterministic (uninterpreted functions of the object)',
                'attribute census is by attribute name over the whole repository source (no alias analysis)')
